@@ -2840,6 +2840,16 @@ HashtableBase<KeyType,ValueType,HashFunctorType>::EnsureTableAllocated()
 {
    if (this->_table == NULL)
    {
+      if (this->_tableSize == 0)
+      {
+         // A table with no slots at all (the source of a move, or one made with PreallocatedItemSlotsCount(0))
+         // starts over at the default capacity;  CreateEntriesArray(0) would return NULL and look like an out-of-memory
+         this->_tableSize      = MUSCLE_HASHTABLE_DEFAULT_CAPACITY;
+#ifndef MUSCLE_HASHTABLE_EXCLUDE_TABLE_INDEX_TYPE_FIELD
+         this->_tableIndexType = this->ComputeTableIndexTypeForTableSize(this->_tableSize);
+#endif
+      }
+
       switch(this->GetTableIndexType())
       {
          case TABLE_INDEX_TYPE_UINT8:
